@@ -1253,6 +1253,11 @@ class Interp(object):
         if isinstance(n.op, ast.Not):
             t = self.truthy(v, st, n)
             return Unknown("bool") if t is None else (not t)
+        if isinstance(v, AObj) and v.cnode is not None and v.ident not in st.havoc:
+            nm = {ast.USub: "__neg__", ast.UAdd: "__pos__", ast.Invert: "__invert__"}.get(type(n.op))
+            m = self.repo.find_method(v.mod, v.cnode, nm) if nm else None
+            if m is not None:
+                return self.call_func(AFunc(m[0], m[1], self_obj=v, cls=v.cnode), [], {}, st, n)
         if is_unk(v) or not is_concrete(v):
             return Unknown(type_name(v) if type_name(v) == "int" else None)
         if isinstance(n.op, ast.USub):
